@@ -6,7 +6,7 @@
    by the implementation oracle only. *)
 From Coq Require Import Reals List.
 From Coquelicot Require Import Coquelicot.
-From AG Require Import RealPrelude ScalarRules VSpace VSpaceProof Select Stats StatsProof.
+From AG Require Import RealPrelude ScalarRules VSpace VSpaceProof Select Stats StatsProof Bilinear.
 From AGGen Require Import GenRules.
 Local Open Scope R_scope.
 
@@ -87,3 +87,21 @@ Theorem C02_norm_jvp_exact :
     is_derive (fun t => sqrt (StatsProof.rsumsq (StatsProof.line x v t))) 0 (StatsProof.rnorm_jvp x v (sqrt (StatsProof.rsumsq x))).
 Proof. exact StatsProof.norm_jvp_exact. Qed.
 Print Assumptions C02_norm_jvp_exact.
+
+(* bilinear primitives: each partial map is additive, so the forward rule (the map applied to the tangent) is exact *)
+Theorem C02_bilinear_partial_maps_linear :
+  forall (K : Type) (k0 k1 : K) (kadd kmul ksub : K -> K -> K) (kopp : K -> K),
+    ring_theory k0 k1 kadd kmul ksub kopp eq ->
+    forall no S A dA B dB,
+      (length A = length dA ->
+       Bilinear.bil K k0 kadd kmul no S (VSpaceProof.vadd K kadd A dA) B
+       = VSpaceProof.vadd K kadd (Bilinear.bil K k0 kadd kmul no S A B) (Bilinear.bil K k0 kadd kmul no S dA B))
+      /\ (length B = length dB ->
+       Bilinear.bil K k0 kadd kmul no S A (VSpaceProof.vadd K kadd B dB)
+       = VSpaceProof.vadd K kadd (Bilinear.bil K k0 kadd kmul no S A B) (Bilinear.bil K k0 kadd kmul no S A dB)).
+Proof.
+  intros K k0 k1 kadd kmul ksub kopp R no S A dA B dB. split.
+  - exact (Bilinear.bil_linear_A K k0 k1 kadd kmul ksub kopp R no S A dA B).
+  - exact (Bilinear.bil_linear_B K k0 k1 kadd kmul ksub kopp R no S A B dB).
+Qed.
+Print Assumptions C02_bilinear_partial_maps_linear.
